@@ -410,8 +410,10 @@ impl Execute for ast::Pipeline {
             }
         }
 
-        // Apply errexit if not suppressed (and not negated)
-        if !params.suppress_errexit && !self.bang {
+        // Apply errexit if not suppressed (and not negated). A compound command other than a
+        // subshell never triggers errexit by itself: either the failing command inside it already
+        // did, or that command failed in a context where errexit is ignored.
+        if !params.suppress_errexit && !self.bang && !is_lone_quiet_compound_command(self) {
             shell.apply_errexit_if_enabled(&mut result);
         }
 
@@ -441,6 +443,24 @@ impl Execute for ast::Pipeline {
 
         Ok(result)
     }
+}
+
+/// Returns whether the pipeline consists of exactly one compound command whose failure must not
+/// trigger errexit on its own (brace group, if, while/until, for, case).
+fn is_lone_quiet_compound_command(pipeline: &ast::Pipeline) -> bool {
+    matches!(
+        pipeline.seq.as_slice(),
+        [ast::Command::Compound(
+            ast::CompoundCommand::BraceGroup(_)
+                | ast::CompoundCommand::IfClause(_)
+                | ast::CompoundCommand::WhileClause(_)
+                | ast::CompoundCommand::UntilClause(_)
+                | ast::CompoundCommand::ForClause(_)
+                | ast::CompoundCommand::ArithmeticForClause(_)
+                | ast::CompoundCommand::CaseClause(_),
+            _
+        )]
+    )
 }
 
 async fn spawn_pipeline_processes(
